@@ -65,6 +65,21 @@ type config struct {
 	Shard    int             `json:"shard"`
 	Shards   int             `json:"shards"`
 	Replay   json.RawMessage `json:"replay,omitempty"`
+
+	Conc           []concTable     `json:"conc,omitempty"`
+	Mode           string          `json:"mode,omitempty"`
+	RaceGoroutines int             `json:"race_goroutines,omitempty"`
+	RaceReps       int             `json:"race_reps,omitempty"`
+	ReplayConc     json.RawMessage `json:"replay_conc,omitempty"`
+}
+
+// concTable: a route table and the requests that are resolved concurrently on it.
+type concTable struct {
+	Name     string      `json:"name"`
+	Routes   [][2]string `json:"routes"`
+	Requests [][2]string `json:"requests"`
+	Threads  int         `json:"threads"`
+	Bound    int         `json:"bound"`
 }
 
 type violation struct {
@@ -93,6 +108,16 @@ type result struct {
 	CappedRequests map[string]int64      `json:"capped_requests"`
 	Error          string                `json:"error"`
 	CPUSeconds     float64               `json:"cpu_s"`
+
+	ConcScenarios     int64                 `json:"conc_scenarios"`
+	ConcSchedules     int64                 `json:"conc_schedules"`
+	ConcTransitions   int64                 `json:"conc_transitions"`
+	ConcPerTable      map[string]int64      `json:"conc_per_table"`
+	ConcViolations    map[string]*violation `json:"conc_violations"`
+	ConcSamples       []json.RawMessage     `json:"conc_samples"`
+	RaceLookups       int64                 `json:"race_lookups"`
+	RaceMismatches    int64                 `json:"race_mismatches"`
+	RaceFirstMismatch string                `json:"race_first_mismatch"`
 }
 
 // rewriteRouter returns router.go with every `range <recv>.routes` inside
@@ -148,34 +173,14 @@ func rewriteRouter(src []byte) ([]byte, int, error) {
 	return out, len(edits), nil
 }
 
-// buildWorker builds ./worker against the rewritten router.go.
-func buildWorker(scratch string) string {
+// buildWorker builds ./worker twice against the rewritten router.go: plain
+// (iteration orders, controlled scheduler) and with -race (free-running pass).
+// When the check weaves internal/router (sync -> verifrt/vsync, for the
+// controlled scheduler) the overlay already replaces router.go by the woven
+// copy; the range splice is then applied to that copy.
+func buildWorker(scratch string) (bin, raceBin string) {
 	repo := os.Getenv("VERIF_REPO")
 	orig := filepath.Join(repo, "internal/router/router.go")
-
-	src, err := os.ReadFile(orig)
-	if err != nil {
-		report.Fatal("cannot read %s: %v", orig, err)
-	}
-
-	out, n, err := rewriteRouter(src)
-	if err != nil {
-		report.Fatal("cannot parse %s: %v", orig, err)
-	}
-
-	if n == 0 {
-		report.Fatal("no `range <router>.routes` found in FindRoute of %s: the C32 harness must be adapted to the new code", orig)
-	}
-
-	dir := filepath.Join(scratch, "c32")
-	if err := os.MkdirAll(dir, 0o755); err != nil {
-		report.Fatal("%v", err)
-	}
-
-	woven := filepath.Join(dir, "router.go")
-	if err := os.WriteFile(woven, out, 0o644); err != nil {
-		report.Fatal("%v", err)
-	}
 
 	b, err := os.ReadFile(os.Getenv("VERIF_OVERLAY"))
 	if err != nil {
@@ -187,11 +192,36 @@ func buildWorker(scratch string) string {
 		report.Fatal("cannot parse the overlay: %v", err)
 	}
 
-	if _, taken := ov.Replace[orig]; taken {
-		report.Fatal("router.go is already replaced in the overlay; C32 must not be configured with a weave of internal/router")
+	from := orig
+	if woven, ok := ov.Replace[orig]; ok {
+		from = woven
 	}
 
-	ov.Replace[orig] = woven
+	src, err := os.ReadFile(from)
+	if err != nil {
+		report.Fatal("cannot read %s: %v", from, err)
+	}
+
+	out, n, err := rewriteRouter(src)
+	if err != nil {
+		report.Fatal("cannot parse %s: %v", from, err)
+	}
+
+	if n == 0 {
+		report.Fatal("no `range <router>.routes` found in FindRoute of %s: the C32 harness must be adapted to the new code", orig)
+	}
+
+	dir := filepath.Join(scratch, "c32")
+	if err := os.MkdirAll(dir, 0o755); err != nil {
+		report.Fatal("%v", err)
+	}
+
+	spliced := filepath.Join(dir, "router.go")
+	if err := os.WriteFile(spliced, out, 0o644); err != nil {
+		report.Fatal("%v", err)
+	}
+
+	ov.Replace[orig] = spliced
 	b, _ = json.Marshal(ov)
 	ovPath := filepath.Join(dir, "overlay.json")
 
@@ -199,13 +229,39 @@ func buildWorker(scratch string) string {
 		report.Fatal("%v", err)
 	}
 
-	bin := filepath.Join(dir, "worker.bin")
-	cmd := exec.Command("go", "build", "-tags", "verif", "-overlay", ovPath, "-o", bin, "./internal/verifharness/c32route/worker")
-	cmd.Dir = repo
-	cmd.Env = goEnv()
+	bin = filepath.Join(dir, "worker.bin")
+	raceBin = filepath.Join(dir, "worker.race.bin")
 
-	if o, err := cmd.CombinedOutput(); err != nil {
-		report.Fatal("building the worker against the rewritten router.go failed: %v\n%s", err, o)
+	var (
+		wg   sync.WaitGroup
+		errs [2]string
+	)
+
+	for i, args := range [][]string{
+		{"build", "-tags", "verif", "-overlay", ovPath, "-o", bin, "./internal/verifharness/c32route/worker"},
+		{"build", "-race", "-tags", "verif", "-overlay", ovPath, "-o", raceBin, "./internal/verifharness/c32route/worker"},
+	} {
+		wg.Add(1)
+
+		go func(i int, args []string) {
+			defer wg.Done()
+
+			cmd := exec.Command("go", args...)
+			cmd.Dir = repo
+			cmd.Env = goEnv()
+
+			if o, err := cmd.CombinedOutput(); err != nil {
+				errs[i] = fmt.Sprintf("go %s: %v\n%s", strings.Join(args, " "), err, o)
+			}
+		}(i, args)
+	}
+
+	wg.Wait()
+
+	for _, e := range errs {
+		if e != "" {
+			report.Fatal("building the worker against the rewritten router.go failed: %s", e)
+		}
 	}
 
 	if d := os.Getenv("VERIF_C32_DEBUG"); d != "" && d != "1" {
@@ -215,7 +271,7 @@ func buildWorker(scratch string) string {
 		_ = os.WriteFile(filepath.Join(d, "router.go"), out, 0o644)
 	}
 
-	return bin
+	return bin, raceBin
 }
 
 // goEnv is the environment for the nested go build: the harness runs with a
@@ -271,7 +327,8 @@ func main() {
 
 	r.Rule("generated tables (" + strings.Join(text, "; ") + ") and the server's actual route table(s) with paths derived from its endpoints (each variable <- a fresh word, the empty segment, every literal found at that position; one segment more/less; trailing slash) x 7 methods. " +
 		"Each (table, method, path) is resolved by the real FindRoute under EVERY iteration order of the table (server table: every order of the routes that are not 404 on their own, placed before and after the rest). " +
-		"evaluations = FindRoute calls on ordered tables. distinct non-trivial = distinct (set of routes that can become candidates, method, normalized path) with >= 2 such routes")
+		"Part 2, concurrent lookups on one router: every pair (thorough: also every triple) of 8 requests on a 6-route table and every pair of 8 requests on the server's table run as managed threads under the controlled scheduler, every interleaving with at most 2 preemptions (server table: 1, thorough 2; triples: 3) executed, each answer compared with the answer the request gets alone; plus, as auxiliary evidence only, the same lookups from 8 real goroutines in a -race build. " +
+		"evaluations = FindRoute calls on ordered tables + schedules executed + lookups of the free-running pass. distinct non-trivial = distinct (set of routes that can become candidates, method, normalized path) with >= 2 such routes, and distinct concurrent scenarios")
 	r.Assume(
 		"the iteration order of Router.routes is the only order FindRoute can observe: registration order reaches it only through the map; every order is both registered and iterated in that order",
 		"the one `range m.routes` of FindRoute is rewritten to range over a harness-chosen order (byte splice of the range expression only; checked live by a counter in the worker)",
@@ -279,7 +336,7 @@ func main() {
 		"server table: a route that answers 404 as a single-route table never enters the candidate list (the loop body keeps no state between routes); the worker aborts with a harness error if such a route is ever chosen",
 	)
 
-	bin := buildWorker(scratch)
+	bin, raceBin := buildWorker(scratch)
 
 	cfg := config{Families: fams}
 
@@ -289,9 +346,26 @@ func main() {
 			report.Fatal("%v", err)
 		}
 
-		cfg.Replay = w
+		var part struct {
+			Part string `json:"part"`
+		}
+
+		_ = json.Unmarshal(w, &part)
+
+		switch part.Part {
+		case "conc":
+			cfg.ReplayConc = w
+		case "race":
+			report.Fatal("a finding of the free-running -race pass has no schedule to replay; re-run the check")
+		default:
+			cfg.Replay = w
+		}
+
+		cfg.Families = nil
 		cfg.Shards = 1
-		merge(r, runWorkers(bin, scratch, cfg, 1))
+		results := runWorkers(bin, scratch, cfg, 1)
+		mergeConc(r, results)
+		merge(r, results)
 		r.Finish()
 	}
 
@@ -326,9 +400,230 @@ func main() {
 		shards = 12
 	}
 
+	// Part 2: concurrent lookups on one router. A small generated table and the
+	// server's table; every pair (thorough: also every triple on the small
+	// table) of these requests is resolved at the same time.
+	small := concTable{Name: "small", Threads: 2, Bound: 2,
+		Routes:   [][2]string{{"/a", "GET"}, {"/a/b", "ANY"}, {"/a/{{x}}", "GET"}, {"/a/{{x}}", "POST"}, {"/{{x}}/b", "GET"}, {"/a/{{x...}}", "ANY"}},
+		Requests: [][2]string{{"GET", "/a"}, {"GET", "/a/b"}, {"POST", "/a/c"}, {"GET", "/a/c"}, {"GET", "/b/b"}, {"GET", "/a/b/c"}, {"DELETE", "/zz"}, {"POST", "/a"}}}
+	server := concTable{Name: "server", Threads: 2, Bound: r.Pick(1, 2), Routes: rt,
+		Requests: [][2]string{{"GET", "/dsns"}, {"GET", "/admin/users/zz"}, {"DELETE", "/admin/tokens/zz"}, {"GET", "/assets/a/b.js"},
+			{"POST", "/dsns/zz/tables/@sql"}, {"GET", "/dsns/zz/tables/t1/rows"}, {"GET", "/services/up"}, {"PUT", "/nope"}}}
+
+	cfg.Conc = []concTable{small, server}
+
+	if r.Thorough() {
+		three := small
+		three.Name, three.Threads, three.Bound = "small-3-threads", 3, 3
+		cfg.Conc = append(cfg.Conc, three)
+	}
+
+	r.Assume(
+		"concurrent part: scheduling points are the lock acquisitions of internal/router (sync woven to verifrt/vsync) and, inside FindRoute, the rewritten range (before each route is visited and after the last); code between two such points runs atomically in the exploration, which is why a free-running -race pass of the same thread body is added as auxiliary evidence",
+		"concurrent part: the expected answer of a lookup is the answer the same request gets when resolved alone on an identically built router (iteration order fixed: sorted)",
+	)
+
 	cfg.Shards = shards
-	merge(r, runWorkers(bin, scratch, cfg, shards))
+	results := runWorkers(bin, scratch, cfg, shards)
+
+	// Auxiliary: the same lookups on real goroutines, -race build of the same worker.
+	raceCfg := config{Conc: cfg.Conc[:2], Mode: "race", RaceGoroutines: 8, RaceReps: r.Pick(150, 600), Shards: 1}
+	raceRes, raceErr, raceText := runOne(raceBin, scratch, raceCfg, "race", []string{"GORACE=halt_on_error=0 exitcode=0"})
+
+	mergeConc(r, results)
+	merge(r, results)
+	judgeRace(r, raceCfg, raceRes, raceErr, raceText)
 	r.Finish()
+}
+
+// runOne runs a single worker process and returns its result, its error and its stderr.
+func runOne(bin, scratch string, cfg config, tag string, env []string) (result, error, string) {
+	var out result
+
+	b, _ := json.Marshal(cfg)
+	cfgPath := filepath.Join(scratch, "c32", "cfg-"+tag+".json")
+	outPath := filepath.Join(scratch, "c32", "out-"+tag+".json")
+
+	if err := os.WriteFile(cfgPath, b, 0o644); err != nil {
+		return out, err, ""
+	}
+
+	var stderr strings.Builder
+
+	cmd := exec.Command(bin)
+	cmd.Env = append(append(os.Environ(), "VERIF_C32_CFG="+cfgPath, "VERIF_C32_OUT="+outPath), env...)
+	cmd.Stderr = &stderr
+	cmd.SysProcAttr = &syscall.SysProcAttr{Pdeathsig: syscall.SIGKILL}
+	runErr := cmd.Run()
+
+	if rb, err := os.ReadFile(outPath); err == nil {
+		_ = json.Unmarshal(rb, &out)
+	}
+
+	return out, runErr, stderr.String()
+}
+
+// judgeRace turns the free-running pass into cells: a race-detector report
+// (named by the racing functions of internal/router), an answer that differs
+// from the serial one, or a crash.
+func judgeRace(r *report.R, cfg config, res result, runErr error, text string) {
+	r.Set("race_pass", map[string]any{"lookups": res.RaceLookups, "goroutines": cfg.RaceGoroutines, "gomaxprocs": []int{2, 8}, "tables": len(cfg.Conc),
+		"answers_differing_from_serial": res.RaceMismatches, "data_race_reports": strings.Count(text, "WARNING: DATA RACE")})
+	r.Eval(int(res.RaceLookups))
+
+	if strings.Contains(text, "WARNING: DATA RACE") {
+		r.Violation("race:"+raceFrames(text), 1, map[string]any{"part": "race", "report": firstRace(text)},
+			"the Go race detector reports an unsynchronized access in internal/router while lookups run concurrently on one router")
+	}
+
+	if res.RaceMismatches > 0 {
+		r.Violation("racepass:lookup-differs-from-serial", 2, map[string]any{"part": "race", "first": res.RaceFirstMismatch, "mismatches": res.RaceMismatches, "lookups": res.RaceLookups},
+			res.RaceFirstMismatch)
+	}
+
+	switch {
+	case strings.Contains(text, "RACEPASS-DONE") && res.Error == "":
+		return
+	case strings.Contains(text, "panic:") || strings.Contains(text, "fatal error"):
+		r.Violation("racepass:crash", 3, map[string]any{"part": "race", "output": tail(text, 1500)}, "concurrent lookups on one router crashed the free-running pass")
+	default:
+		report.Fatal("race pass failed: %v %s\n%s", runErr, res.Error, tail(text, 1500))
+	}
+}
+
+func tail(s string, n int) string {
+	if len(s) > n {
+		return s[len(s)-n:]
+	}
+
+	return s
+}
+
+func firstRace(s string) string {
+	s = s[strings.Index(s, "WARNING: DATA RACE"):]
+
+	if j := strings.Index(s, "=================="); j > 0 {
+		s = s[:j]
+	}
+
+	if len(s) > 3000 {
+		s = s[:3000]
+	}
+
+	return s
+}
+
+// raceFrames names the racing functions of internal/router (the cell key).
+func raceFrames(s string) string {
+	const pkg = "github.com/tucats/ego/internal/router."
+
+	seen := map[string]bool{}
+
+	var fns []string
+
+	for _, line := range strings.Split(firstRace(s), "\n") {
+		line = strings.TrimSpace(line)
+		if !strings.HasPrefix(line, pkg) || strings.Contains(line, "verifC32") || strings.Contains(line, "VerifC32") {
+			continue
+		}
+
+		fn := strings.TrimPrefix(line, pkg)
+		if i := strings.LastIndex(fn, "("); i > 0 {
+			fn = fn[:i]
+		}
+
+		for _, cut := range []string{".func", "-range"} {
+			if i := strings.Index(fn, cut); i > 0 {
+				fn = fn[:i]
+			}
+		}
+
+		if !seen[fn] {
+			seen[fn] = true
+			fns = append(fns, fn)
+		}
+	}
+
+	sort.Strings(fns)
+
+	if len(fns) > 2 {
+		fns = fns[:2]
+	}
+
+	if len(fns) == 0 {
+		return "outside-internal/router"
+	}
+
+	return strings.Join(fns, "+")
+}
+
+// mergeConc folds the controlled-scheduler part of the workers' results into the report.
+func mergeConc(r *report.R, results []result) {
+	var scenarios, schedules, transitions int64
+
+	per := map[string]int64{}
+	cells := map[string]*violation{}
+
+	for _, x := range results {
+		scenarios += x.ConcScenarios
+		schedules += x.ConcSchedules
+		transitions += x.ConcTransitions
+
+		for k, v := range x.ConcPerTable {
+			if strings.HasSuffix(k, ":max_points") {
+				if v > per[k] {
+					per[k] = v
+				}
+			} else {
+				per[k] += v
+			}
+		}
+
+		for c, v := range x.ConcViolations {
+			cur := cells[c]
+			if cur == nil {
+				cp := *v
+				cells[c] = &cp
+
+				continue
+			}
+
+			cur.Count += v.Count
+
+			if v.Size < cur.Size || (v.Size == cur.Size && string(v.Witness) < string(cur.Witness)) {
+				cur.Size, cur.Witness, cur.Message = v.Size, v.Witness, v.Message
+			}
+		}
+	}
+
+	names := make([]string, 0, len(cells))
+	for c := range cells {
+		names = append(names, c)
+	}
+
+	sort.Strings(names)
+
+	for _, c := range names {
+		r.Violation(c, cells[c].Size, cells[c].Witness, cells[c].Message)
+	}
+
+	for _, x := range results {
+		for _, smp := range x.ConcSamples {
+			if len(smp) > 0 {
+				r.Sample(smp)
+
+				break
+			}
+		}
+
+		break
+	}
+
+	r.Eval(int(schedules))
+	r.Set("concurrent_scenarios", scenarios)
+	r.Set("concurrent_schedules", schedules)
+	r.Set("concurrent_choice_points", transitions)
+	r.Set("concurrent_per_table", per)
 }
 
 func runWorkers(bin, scratch string, cfg config, shards int) []result {
